@@ -118,6 +118,7 @@ impl<'a> TyVisitor for V<'a> {
         let st = self.st;
         let lay = T::layout(dims);
         let alg = lay.alg();
+        ndv_oracle::ring::set_unit(<T::F as Flt>::U);
         let is32 = <T::F as Flt>::IS32;
         let d = alg.depth();
         let fname = fun_name(case.fun);
@@ -154,6 +155,9 @@ impl<'a> TyVisitor for V<'a> {
             26 => {
                 if x0r.abs().max(fy.vals[0].abs()) < 1e-3 {
                     return Verdict::Trivial("atan2 too close to the origin");
+                }
+                if x0r == 0.0 && fy.vals[0] <= 0.0 {
+                    return Verdict::Trivial("atan2 on its branch cut");
                 }
                 (x.atan2(y.clone()), xj.atan2(&yj))
             }
